@@ -125,7 +125,10 @@ int main(int argc, char ** argv)
     std::string path = dir + "/rt.d0t";
     {
       std::ofstream f(path);
-      f.precision(15);
+      // event::store sets the precision it needs itself: a third of the rounds leave the fresh stream at its default precision (6),
+      // a third at a lower one, a third do what bxdecay0-run does
+      if (it % 3 == 0) f.precision(15);
+      else if (it % 3 == 1) f.precision(3);
       for (int i = 0; i < nev; i++) {
         evs.push_back(random_event(r, it % 50 == 0 ? 100 : 12, hostile));
         write_record(f, i, evs.back());
@@ -183,7 +186,7 @@ int main(int argc, char ** argv)
           for (int f = 0; f < F; f++) {
             std::string p = dir + fmt("/w%d.d0t", f);
             std::ofstream out(p);
-            out.precision(15);
+            if ((partitions + f) % 3 != 1) out.precision(15); // (see the round-trip section: the library sets what it needs)
             if (part[f] == 0 && ((partitions + f) % 2)) out << "\n  \n\t\n";
             for (int j = 0; j < part[f]; j++, id++) write_record(out, id, stream[id]);
             files.push_back(p);
